@@ -760,6 +760,12 @@ class Lib:
                     return None
                 return models_time.UTC if v.tz == 'UTC' else Opaque('tzinfo', tzname=v.tz)
             return LibMethod(v, name)
+        if isinstance(v, Opaque) and v.name == 'timedelta' and name in ('days', 'seconds', 'microseconds'):
+            # CPython normal form: us = ((days*86400 + seconds) * 10**6 + microseconds), 0 <= seconds < 86400, 0 <= microseconds < 10**6
+            us = to_z3(v.us)
+            d, sec, mic = (self.ctx.fresh_int('td_' + k) for k in ('days', 'seconds', 'microseconds'))
+            self.ctx.assume(z3.And(us == (d * 86400 + sec) * 1000000 + mic, 0 <= sec, sec < 86400, 0 <= mic, mic < 1000000))
+            return {'days': d, 'seconds': sec, 'microseconds': mic}[name]
         if isinstance(v, Opaque):
             if v.name == 'dtype':
                 if name == 'type':
